@@ -190,6 +190,12 @@ type step struct {
 type seqCase struct {
 	Label string `json:"label"`
 	Steps []step `json:"steps"`
+	// index-driven mode: a signed APKINDEX describing this build is written next to
+	// the package and the install goes InitKeyring / SetRepositories / SetWorld /
+	// FixateWorld (the handle is the resolver's RepositoryPackage)
+	ViaIndex bool             `json:"via_index,omitempty"`
+	indexed  *synthrepo.Built
+	key      *synthrepo.Key
 }
 
 type observed struct {
@@ -291,7 +297,33 @@ func runCase(root string, n int, sc *seqCase) gal.Case {
 			if err := a.InitDB(ctx); err != nil {
 				panic(err)
 			}
-			pk, err := a.InstallPackages(ctx, nil, []apk.InstallablePackage{handle{url, "pkg", s.Checksum}})
+			var pk []*apk.Package
+			if sc.ViaIndex {
+				repoDir := filepath.Dir(filepath.Dir(url))
+				whole, _, ierr := synthrepo.IndexArchive(synthrepo.IndexEntry(sc.indexed), sc.key, "RSA256")
+				if ierr != nil {
+					panic(ierr)
+				}
+				ixp := filepath.Join(filepath.Dir(url), "APKINDEX.tar.gz")
+				if old, rerr := os.ReadFile(ixp); rerr != nil || !bytes.Equal(old, whole) {
+					if werr := os.WriteFile(ixp, whole, 0o644); werr != nil {
+						panic(werr)
+					}
+				}
+				keyPath := filepath.Join(dir, sc.key.Name)
+				if werr := os.WriteFile(keyPath, sc.key.Pub, 0o644); werr != nil {
+					panic(werr)
+				}
+				if err = a.InitKeyring(ctx, []string{keyPath}, nil); err == nil {
+					if err = a.SetRepositories(ctx, []string{repoDir}); err == nil {
+						if err = a.SetWorld(ctx, []string{"pkg"}); err == nil {
+							pk, err = a.FixateWorld(ctx, nil)
+						}
+					}
+				}
+			} else {
+				pk, err = a.InstallPackages(ctx, nil, []apk.InstallablePackage{handle{url, "pkg", s.Checksum}})
+			}
 			if err != nil {
 				o = observed{err: err.Error()}
 				return
@@ -437,6 +469,7 @@ func (g *gen) variants(tag string) []variant {
 	add("handle checksum without the Q1 prefix", G, strings.TrimPrefix(G.Checksum(), "Q1"), whole("genuine", G))
 	add("handle checksum without Q1, different package served", G, strings.TrimPrefix(G.Checksum(), "Q1"), whole("another package", X))
 	add("handle checksum is not base64", G, "Q1!!!not-base64!!!", whole("genuine", G))
+	add("handle checksum with a doubled Q1 prefix", G, "Q1"+G.Checksum(), whole("genuine", G))
 	add("handle checksum empty", G, "<empty>", whole("genuine", G))
 	add("handle checksum of another package (index updated), genuine served", X, "", whole("genuine", G))
 	add("nothing under the URL", G, "", nil)
@@ -511,7 +544,7 @@ func main() {
 			{NewProcess: true, Cache: 0, Lazy: lazy, Checksum: genuine.checksum(), Serve: genuine.serve},
 			{NewProcess: false, Cache: 1, Lazy: lazy, Checksum: xIdx.ctlOf.Checksum(), Serve: xIdx}}})
 		// C05-F2: the memo key URL+"@"+checksum is ambiguous when either part contains '@'
-		run(&seqCase{Label: "C05-F2 memo key ambiguity: (dir 'r@x', Q1<G>) then (dir 'r', 'x/x86_64/pkg-1.0-r0.apk@Q1<G>') / " + lz, Steps: []step{
+		run(&seqCase{Label: "fixed C05-F2 replay: memo key ambiguity: (dir 'r@x', Q1<G>) then (dir 'r', 'x/x86_64/pkg-1.0-r0.apk@Q1<G>') / " + lz, Steps: []step{
 			{NewProcess: true, Cache: 0, Lazy: lazy, Checksum: genuine.checksum(), Serve: genuine.serve, Dir: "r@x"},
 			{NewProcess: false, Cache: 0, Lazy: lazy, Checksum: "x/x86_64/pkg-1.0-r0.apk@" + genuine.checksum(), RawURL: "r"}}})
 		run(&seqCase{Label: "URL republished, new process / " + lz, Steps: []step{
@@ -520,6 +553,22 @@ func main() {
 		run(&seqCase{Label: "URL republished within one process, cache disabled / " + lz, Steps: []step{
 			{NewProcess: true, Cache: -1, Lazy: lazy, Checksum: genuine.checksum(), Serve: genuine.serve},
 			{NewProcess: false, Cache: -1, Lazy: lazy, Checksum: xIdx.ctlOf.Checksum(), Serve: xIdx}}})
+	}
+	// the same substitutions behind a real signed index, through the resolver
+	for _, lazy := range []bool{true, false} {
+		lz := map[bool]string{true: "lazy", false: "streaming"}[lazy]
+		for vi := range vs {
+			v := &vs[vi]
+			if v.chk != "" {
+				continue // the checksum string is whatever the index parser produces
+			}
+			chk := v.index.Checksum()
+			idx := &apkfile{Label: "as indexed", ctlOf: v.index, datOf: v.index}
+			run(&seqCase{Label: v.name + " / via signed index, no cache / " + lz, ViaIndex: true, indexed: v.index, key: key,
+				Steps: []step{{NewProcess: true, Cache: -1, Lazy: lazy, Checksum: chk, Serve: v.serve}}})
+			run(&seqCase{Label: v.name + " / via signed index, warm cache from an earlier process / " + lz, ViaIndex: true, indexed: v.index, key: key,
+				Steps: []step{{NewProcess: true, Cache: 0, Lazy: lazy, Checksum: chk, Serve: idx}, {NewProcess: true, Cache: 0, Lazy: lazy, Checksum: chk, Serve: v.serve}}})
+		}
 	}
 	// generated sequences over fresh builds
 	rounds := 25
